@@ -71,6 +71,11 @@ pub fn parse_args() -> Args {
     }
 }
 
+/// Where evidence and replay files go (`/verif`, or `$VERIF_OUT` for runs against a scratch tree).
+pub fn out_root() -> PathBuf {
+    std::env::var("VERIF_OUT").map(PathBuf::from).unwrap_or_else(|_| PathBuf::from(VERIF))
+}
+
 pub fn ncores() -> usize {
     std::env::var("VERIF_JOBS")
         .ok()
@@ -199,7 +204,7 @@ impl Reporter {
         if self.new_keys.contains_key(key) {
             return;
         }
-        let dir = Path::new(VERIF).join("replays").join(&self.id);
+        let dir = out_root().join("replays").join(&self.id);
         let _ = std::fs::create_dir_all(&dir);
         let n = self.new_keys.len();
         let path = dir.join(format!("{n:04}.json"));
@@ -259,7 +264,7 @@ impl Reporter {
             "wall_s": (self.start.elapsed().as_secs_f64() * 100.0).round() / 100.0,
             "violations": self.new_keys.len(),
         });
-        let dir = Path::new(VERIF).join("evidence");
+        let dir = out_root().join("evidence");
         let _ = std::fs::create_dir_all(&dir);
         let path = dir.join(format!("{}.json", self.id));
         if let Err(e) = std::fs::write(&path, serde_json::to_string_pretty(&ev).unwrap_or_default())
